@@ -2,6 +2,7 @@
 # Applies every seeded change in /verif/seeded/*/patch.diff to /repo in turn, runs the quick check of the property it
 # breaks, reverts, and prints one line per seed (expected: exit=1 with VIOLATION lines for every seed).
 cd /verif
+export VERIF_EVIDENCE_DIR=/tmp/seed_evidence
 for d in seeded/*/; do
   id=$(basename $d); prop=$(echo $id | cut -c1-3)
   ( cd /repo && git apply /verif/$d/patch.diff ) || { echo "$id: patch does not apply"; continue; }
